@@ -23,7 +23,8 @@ func init() {
 			"(R5) differ.diff emits Change{Path, Old: base, New: target} exactly under !target.Equal(base,false) and otherwise recurses over the union of names; " +
 			"(R6) under mode==TwoWaySafe, when both sides have non-deletion changes, the only emission is a conflict; " +
 			"(R7) controller.synchronize folds each transition RESULT (not the planned New) into the ancestor, so a failed creation is never recorded as synchronized. " +
-			"Not decided: correctness of Entry.Equal / synchronizable / nameUnion themselves (C07), the on-disk check-before-write layer (C08), multi-cycle histories.",
+			"(R8, just-in-time check — the rule family of C08.R4) ensureExpectedFile/ensureExpectedSymbolicLink accept only when mode, size, exact modification time, file identity and digest (resp. link target) equal what the scan recorded, so content modified after the scan is not removed or replaced. " +
+			"Not decided: correctness of Entry.Equal / synchronizable / nameUnion themselves (C07), the rest of the on-disk check-before-write layer (C08), multi-cycle histories.",
 		Assumptions: []string{"diff, synchronizable and extractNonDeletionChanges are pure (two calls with equal arguments are equal)", "Entry values are immutable once scanned (C07.R3)"},
 		Run:         runC01,
 	})
@@ -135,6 +136,10 @@ func runC01(c *eng.Ctx) {
 	if syn := c.MustFunc("R7", syncPkg, "controller.synchronize"); syn != nil {
 		c01FoldResults(c, "R7", syn)
 	}
+
+	// R8: the just-in-time on-disk check before a file or link is removed or
+	// replaced (the third mechanism of the property; shared with C08.R4).
+	trEnsureExpected(c, "R8")
 }
 
 // c01DiffRules decides the shape of differ.diff (shared with C07).
